@@ -1,6 +1,7 @@
 package checks
 
 import (
+	_ "time/tzdata"
 	"fmt"
 	"math"
 	"reflect"
@@ -386,12 +387,81 @@ func c07ChainRun(c *fw.Ctx, pool []poolVal, chains []c07Chain, i int64) {
 	c.Outcome("roundtrip-ok:" + tn(ch.from) + "->" + tn(ch.via))
 }
 
+// ---- conversions between instants and numbers under a local time zone with daylight saving:
+// every second next to (and inside the repeated / skipped hour of) every offset change of a year
+
+var c07Zones = []string{"America/New_York", "Europe/London", "Australia/Lord_Howe", "Asia/Kathmandu"}
+
+// c07ZoneSeconds: unix seconds around every change of the zone's UTC offset in 2021
+func c07ZoneSeconds(loc *time.Location) []int64 {
+	out := []int64{}
+	start := time.Date(2021, 1, 1, 0, 0, 0, 0, time.UTC).Unix()
+	_, prev := time.Unix(start, 0).In(loc).Zone()
+	for t := start; t < start+366*86400; t += 900 {
+		_, off := time.Unix(t, 0).In(loc).Zone()
+		if off != prev {
+			prev = off
+			for _, d := range []int64{-7201, -3601, -3600, -1800, -1, 0, 1, 1799, 1800, 3599, 3600, 7200} {
+				out = append(out, t+d)
+			}
+		}
+	}
+	if len(out) == 0 {
+		out = []int64{start, start + 15552000}
+	}
+	return out
+}
+
+func c07LocalZone(c *fw.Ctx, zi int, safe bool) {
+	loc, err := time.LoadLocation(c07Zones[zi])
+	if err != nil {
+		c.Outcome("zone-data-unavailable")
+		return
+	}
+	saved := time.Local
+	time.Local = loc
+	defer func() { time.Local = saved }()
+	ops := opsManager(safe)
+	for _, sec := range c07ZoneSeconds(loc) {
+		for _, from := range []*variants.Variant{variants.VariantFromLong(sec), variants.VariantFromInteger(int(sec))} {
+			var d, back *variants.Variant
+			var e1, e2 error
+			pv := fw.Try(func() {
+				d, e1 = ops.Convert(from, variants.DateTime)
+				if e1 == nil && d != nil {
+					back, e2 = ops.Convert(d, from.Type())
+				}
+			})
+			c.Eval(2)
+			if pv != nil {
+				c.Violation("convert-panics:"+mgrName(safe), "local zone %s: %s Convert(%s, DateTime) panics: %s", c07Zones[zi], mgrName(safe), variantStr(from), panicShort(pv))
+				continue
+			}
+			if e1 != nil || d == nil {
+				if !safe {
+					c.Violation("convert-fails:type-unsafe:number->DateTime", "local zone %s: Convert(%s, DateTime) fails: %v", c07Zones[zi], variantStr(from), e1)
+				}
+				continue // the type-safe manager does not permit the conversion
+			}
+			if d.Type() != variants.DateTime || !d.AsDateTime().Equal(time.Unix(sec, 0)) {
+				c.Violation("convert-wrong-value:number->DateTime:local-zone", "local zone %s: %s Convert(%s, DateTime) = %s, the instant %d seconds after the epoch is %s", c07Zones[zi], mgrName(safe), variantStr(from), variantStr(d), sec, time.Unix(sec, 0).UTC().Format(time.RFC3339))
+				continue
+			}
+			if e2 == nil && back != nil && variantStr(back) != variantStr(from) {
+				c.Violation("roundtrip:number->DateTime->number:local-zone", "local zone %s: %s %s -> DateTime -> %s gives %s", c07Zones[zi], mgrName(safe), variantStr(from), tn(from.Type()), variantStr(back))
+			}
+		}
+	}
+	c.Nontrivial()
+	c.Outcome("zone:" + c07Zones[zi])
+}
+
 func init() {
 	fw.Register(&fw.Check{
 		ID:    "C07",
 		Level: "model_checking",
 		Rule: "full matrix: every pool value (all variant types with boundaries) x all 11 target types x both managers against a reference conversion table (result type, payload where the table defines it, result XOR error, operand unchanged, type-safe whitelist, managers agree); " +
-			"plus the same matrix on a long-lived manager with a source object that was converted once and then changed in place (must equal a fresh object), and every conversion repeated after the caller overwrote the returned variant; plus every two-step chain src->dst->src of the lossless table for every pool value inside the exact range; non-trivial = conversions to a different type / applicable chains",
+			"plus the same matrix on a long-lived manager with a source object that was converted once and then changed in place (must equal a fresh object), and every conversion repeated after the caller overwrote the returned variant; plus Integer/Long <-> DateTime with the process's local zone set to four zones with daylight saving / odd offsets, for the seconds around (and inside the repeated or skipped hour of) every offset change of 2021; plus every two-step chain src->dst->src of the lossless table for every pool value inside the exact range; non-trivial = conversions to a different type / applicable chains",
 		Assume: []string{"string->number/date parsing and any->string formatting are done by the external commons converters (trusted base); their payloads are not predicted except Integer/Long/Boolean->String", "conversions the statement does not list may succeed or fail in the type-unsafe manager"},
 		Spaces: func(tier string) []fw.Space {
 			pool := valuePool("thorough")
@@ -412,6 +482,10 @@ func init() {
 				}, Repr: func(i int64) string {
 					return fmt.Sprintf("%s Convert(%s, %s), result overwritten by the caller, same conversion again", mgrName(i%2 == 1), pool[int(i/2)/len(allTypes)].label, tn(allTypes[int(i/2)%len(allTypes)]))
 				}},
+				{Name: "local-zone-instants", N: int64(len(c07Zones) * 2), Run: func(c *fw.Ctx, i int64) { c07LocalZone(c, int(i/2), i%2 == 1) },
+					Repr: func(i int64) string {
+						return fmt.Sprintf("%s number <-> DateTime with time.Local = %s, seconds around every offset change of 2021", mgrName(i%2 == 1), c07Zones[i/2])
+					}},
 				{Name: "chains", N: int64(len(pool) * len(chains)), Run: func(c *fw.Ctx, i int64) { c07ChainRun(c, pool, chains, i) },
 					Repr: func(i int64) string {
 						ch := chains[int(i)%len(chains)]
